@@ -7,4 +7,4 @@ Extraction Language OCaml.
 Extraction "../ocaml/gen/threshold_ex.ml"
   pct_point new_checker with_warning_threshold check_checker explain_checker apply_cli_overrides
   limit_for warn_threshold_for warn_limit_with_source skip_settings_for should_process
-  compute_effective_stats check process_for_check explain check_file verdict matches no_overrides validate_content.
+  compute_effective_stats check process_for_check explain check_file explain_file verdict matches no_overrides validate_content.
